@@ -664,7 +664,18 @@ func maybeAugmentTaprootResolvers(chanType channeldb.ChannelType,
 			if r.htlcResolution.ClaimOutpoint ==
 				htlcRes.ClaimOutpoint {
 
+				// The resolution logged at close time doesn't
+				// know the preimage yet, while the resolver
+				// persisted it when it was swapped in for the
+				// contest resolver: keep it (and the success
+				// tx it was written into).
+				preimage := r.htlcResolution.Preimage
+				successTx := r.htlcResolution.SignedSuccessTx
 				r.htlcResolution = htlcRes
+				if preimage != lntypes.ZeroHash {
+					r.htlcResolution.Preimage = preimage
+					r.htlcResolution.SignedSuccessTx = successTx
+				}
 			}
 		}
 	}
